@@ -157,4 +157,27 @@ def obligations(tier, seed):
     obs.append(Ob(id='C14.rawdiv-mixed.family.int_f64', prop='C14', group='C14.rawdiv', prelude=PRE, wrappers=[w3], inputs=[('int32_t', 'x'), ('uint8_t', 'm')], body=body, fp=True,
                   bounded=True, contract='restricted family x in [0,127], q = m + 0.5 for m in [1,64]: (x / unblock_int_div(seconds(q))).in(1/s) == (double)x / q bit for bit',
                   functions_under_contract=('au::operator/(T, AlwaysDivisibleQuantity)',)))
+    # ---- supporting static facts: the result UNIT / collapse to a raw number, as types (compile-time half of C14)
+    RU = '#include <type_traits>\n#include "au/au.hh"\n#include "au/units/meters.hh"\n#include "au/units/seconds.hh"\n#include "au/units/hertz.hh"\n#include "au/units/feet.hh"\n#include "au/units/percent.hh"\nusing namespace au;\ntemplate <class T> struct IsQ : std::false_type {};\ntemplate <class U, class R> struct IsQ<Quantity<U, R>> : std::true_type {};\n#define VF_STATIC_FACT(c) static_assert(c, "VF_STATIC_FACT")\ntemplate <class Q, class U> constexpr bool unit_is() { return AreUnitsQuantityEquivalent<typename Q::Unit, U>::value && std::is_same<detail::DimT<typename Q::Unit>, detail::DimT<U>>::value; }\nint main(){\n  VF_STATIC_FACT((std::is_same<decltype(hertz(2) * seconds(3)), int>::value));                      // units cancel exactly: raw number\n  VF_STATIC_FACT((std::is_same<decltype(seconds(3.0) * hertz(2)), double>::value));\n  VF_STATIC_FACT((IsQ<decltype(hertz(2) * milli(seconds)(3))>::value));                             // Hz x ms does NOT cancel (magnitude 1/1000)\n  VF_STATIC_FACT((unit_is<decltype(hertz(2) * milli(seconds)(3)), decltype(Hertz{} * Milli<Seconds>{})>()));\n  VF_STATIC_FACT((std::is_same<decltype(meters(6) / meters(3)), int>::value));                         // same unit: raw number\n  VF_STATIC_FACT((IsQ<decltype(meters(6.0) / feet(3.0))>::value));                                   // same dimension, different magnitude: stays a quantity\n  VF_STATIC_FACT((unit_is<decltype(meters(2) * seconds(3)), decltype(Meters{} * Seconds{})>()));\n  VF_STATIC_FACT((unit_is<decltype(meters(2.0) / seconds(4.0)), decltype(Meters{} / Seconds{})>()));\n  VF_STATIC_FACT((unit_is<decltype(int_pow<3>(meters(2))), UnitPowerT<Meters, 3>>()));\n  VF_STATIC_FACT((unit_is<decltype(int_pow<-2>(meters(2.0))), UnitPowerT<Meters, -2>>()));\n  VF_STATIC_FACT((unit_is<decltype(sqrt(squared(meters)(4.0))), Meters>()));\n  VF_STATIC_FACT((unit_is<decltype(cbrt(cubed(meters)(8.0))), Meters>()));\n  VF_STATIC_FACT((unit_is<decltype(1.0 / seconds(4.0)), UnitInverseT<Seconds>>()));\n  VF_STATIC_FACT((unit_is<decltype(sqrt(meters(4.0))), UnitPowerT<Meters, 1, 2>>()));\n  VF_STATIC_FACT((std::is_same<decltype(as_raw_number(hertz(2) * milli(seconds)(3000.0))), double>::value));\n  VF_STATIC_FACT((std::is_same<decltype(as_raw_number(percent(50.0))), double>::value));\n}\n'
+    obs.append(Ob(id='C14.static.result-units', prop='C14', group='C14.static', prelude='', wrappers=[], inputs=[], kind='S', body=RU,
+                  contract='static facts: Hz x s and m / m collapse to the raw number type, Hz x ms and m / ft stay quantities; products, quotients, int_pow, sqrt, cbrt, 1/q carry the product / '
+                           'quotient / power of the units; as_raw_number of a dimensionless quantity yields the rep', functions_under_contract=('au::Quantity operators, int_pow, sqrt, cbrt, as_raw_number (result types)',)))
+    AR = ('#include <type_traits>\n#include <utility>\n#include "au/au.hh"\n#include "au/units/meters.hh"\n#include "au/units/seconds.hh"\n#include "au/units/percent.hh"\nusing namespace au;\n'
+          '#define VF_STATIC_FACT(c) static_assert(c, "VF_STATIC_FACT")\n'
+          '/* a DIMENSIONED quantity still selects the Quantity overload of as_raw_number (whose body rejects it with a static_assert): its declared result is the rep, */\n'
+          '/* never the quantity itself handed back by the identity overload for raw numbers */\n'
+          'VF_STATIC_FACT((std::is_same<decltype(as_raw_number(std::declval<Quantity<Meters, int>>())), int>::value));\n'
+          'VF_STATIC_FACT((std::is_same<decltype(as_raw_number(std::declval<Quantity<UnitQuotientT<Meters, Seconds>, double>>())), double>::value));\n'
+          'VF_STATIC_FACT((std::is_same<decltype(as_raw_number(std::declval<Quantity<Percent, float>>())), float>::value));\n'
+          'VF_STATIC_FACT((std::is_same<decltype(as_raw_number(3)), int>::value));\nint main() {}\n')
+    obs.append(Ob(id='C14.static.as-raw-number-overload', prop='C14', group='C14.static', prelude='', wrappers=[], inputs=[], kind='S', body=AR,
+                  contract='static facts: as_raw_number applied to a quantity (dimensionless or not) resolves to the Quantity overload, whose result type is the rep and whose body rejects dimensioned '
+                           'units; a raw number goes through the identity overload', functions_under_contract=('au::as_raw_number (overload resolution, compile-time)',)))
+    UB = ('#include <type_traits>\n#include "au/au.hh"\n#include "au/units/meters.hh"\n#include "au/units/hertz.hh"\n#include "au/units/seconds.hh"\nusing namespace au;\n'
+          '#define VF_STATIC_FACT(c) static_assert(c, "VF_STATIC_FACT")\n'
+          'VF_STATIC_FACT((std::is_same<decltype(meters(6) / unblock_int_div(meters(3))), int>::value));\n'
+          'VF_STATIC_FACT((std::is_same<decltype(hertz(6) / unblock_int_div(1 / unblock_int_div(seconds(3)))), int>::value));\nint main() {}\n')
+    obs.append(Ob(id='C14.static.unblocked-division-collapses', prop='C14', group='C14.static', prelude='', wrappers=[], inputs=[], kind='S', body=UB,
+                  contract='static facts: q1 / unblock_int_div(q2) collapses to a raw number when the units cancel, exactly as q1 / q2 does',
+                  functions_under_contract=('au::operator/(Quantity, AlwaysDivisibleQuantity)',)))
     return obs
